@@ -237,6 +237,13 @@ def run(ctx):
     for h in hists:
         ctx.count(describe(h), nontrivial(h))
     ctx.traces += len(hists)
+    # scale: one delete() / update() call over thousands of names
+    for n in ([700, 2500] if thorough else [700]):
+        bad, detail = scaled_history(ctx, n, ctx.path("c10_scaled.db"))
+        if bad:
+            ctx.violation({"scaled_blocks": n, "history": "create 4n features; delete(2n ids); update(2n features); reopen"}, bad, detail)
+        ctx.count(("scaled", n), True)
+        ctx.traces += 1
     ctx.extra["behaviours_depth2"] = len(hists) - len(deep)
     ctx.extra["behaviours_simulated"] = len(deep)
     ctx.sample({"history": describe(deep[0] if deep else hists[0])})
@@ -244,10 +251,73 @@ def run(ctx):
                         "after an update whose source fails only the .bak file is asserted (the statement says nothing else about that state) and the history ends"]
 
 
+def scaled_history(ctx, n, path):
+    """scale: n disjoint blocks a <- b <- {c, d}; ONE delete() call removes b and c of every block (2n ids), ONE update() re-adds every b (Parent=a) and adds
+    e (Parent=b), then the file is reopened.  The expectation of a block comes from the model (Gen_DB); blocks with disjoint names do not interact
+    (MC_DB02!InvBlockCompose for imports; delete and update act per name), so the expectation of the whole is the union of the renamed blocks."""
+    import gffutils
+    a = G.feat("gene", 1, 100, [("ID", ["a"])])
+    b = G.feat("mRNA", 1, 100, [("ID", ["b"]), ("Parent", ["a"])])
+    c = G.feat("exon", 1, 10, [("ID", ["c"]), ("Parent", ["b"])])
+    d = G.feat("exon", 20, 30, [("ID", ["d"]), ("Parent", ["b"])])
+    e = G.feat("exon", 40, 50, [("ID", ["e"]), ("Parent", ["b"])])
+    cfg = dict(G.DEFAULT_CFG, idspec={"kind": "default"})
+    hist = {"init": {"feats": [a, b, c, d], "cfg": cfg, "dirs": [], "gtf": False}, "rel": False,
+            "steps": [{"op": "delete", "ids": [enc("b"), enc("c")], "backup": False}, {"op": "update", "feats": [b, e], "cfg": cfg, "backup": False}, {"op": "reopen"}]}
+    traj = G.model(ctx, [hist], label="one block of the scaled history", workers=1)[0]["traj"]
+
+    def ren(f, k):
+        return dict(f, attrs=[[kk, [enc(dec(v) + "_%d" % k) for v in vs]] if dec(kk) in ("ID", "Parent") else [kk, vs] for kk, vs in f["attrs"]])
+
+    def expected(t):
+        feats = sorted((dec(f["id"]) + "_%d" % k, dec(f["ftype"]), f["start"], f["end"]) for k in range(n) for f in t["db"]["feats"])
+        rels = sorted((dec(r[0]) + "_%d" % k, dec(r[1]) + "_%d" % k, r[2]) for k in range(n) for r in t["db"]["rels"])
+        return feats, rels
+
+    def observed():
+        conn = __import__("sqlite3").connect(path)
+        try:
+            feats = sorted(conn.execute("SELECT id, featuretype, start, end FROM features").fetchall())
+            rels = sorted(conn.execute("SELECT parent, child, level FROM relations").fetchall())
+            return [tuple(x) for x in feats], [tuple(x) for x in rels]
+        finally:
+            conn.close()
+    try:
+        with dbio.quiet():
+            db = gffutils.create_db([G.real_feature(ren(f, k)) for k in range(n) for f in (a, b, c, d)], path, force=True)
+        steps = [("create", None)]
+        for stage, t in enumerate(traj):
+            if stage == 1:
+                with dbio.quiet():
+                    db.delete(["%s_%d" % (x, k) for k in range(n) for x in ("b", "c")], make_backup=False)
+            elif stage == 2:
+                with dbio.quiet():
+                    db.update([G.real_feature(ren(f, k)) for k in range(n) for f in (b, e)], make_backup=False)
+            elif stage == 3:
+                db.conn.close()
+                db = gffutils.FeatureDB(path)
+            ef, er = expected(t)
+            of, orl = observed()
+            if of != ef:
+                return "scaled_step%d:feature_keys" % stage, {"stored": len(of), "expected": len(ef), "first_difference": [x for x in of if x not in set(ef)][:3] + [x for x in ef if x not in set(of)][:3]}
+            if orl != er:
+                return "scaled_step%d:relations" % stage, {"rows": len(orl), "expected": len(er), "unexpected": [x for x in orl if x not in set(er)][:5], "missing": [x for x in er if x not in set(orl)][:5]}
+        db.conn.close()
+        return None, None
+    except Exception as ex:  # noqa
+        return "scaled:raised:" + type(ex).__name__, {"message": str(ex)[:200]}
+    finally:
+        for p in (path, path + ".bak"):
+            if os.path.exists(p):
+                os.unlink(p)
+
+
 def replay(ctx, rec):
+    if "scaled_blocks" in rec["case"]:
+        return scaled_history(ctx, rec["case"]["scaled_blocks"], ctx.path("c10_scaled_replay.db"))[0] is not None
     raw = rec["case"].get("raw")
     if not raw:
-        return True
+        raise core.CannotReplay("no executable case in this replay file")
     o = run_case((raw, ctx.path("replay.db")))
     n0 = len(ctx.violations)
     judge(ctx, [raw], [o], "replay")
